@@ -46,6 +46,27 @@ static void aes_case(const char *suite, const bytes &key, const bytes &blk) {
   real_aes(false, key.data(), r);
   if (memcmp(r, blk.data(), 16) != 0) emitA(suite, "C09", "decrypt(encrypt(b))!=b key=" + hex(key) + " blk=" + hex(blk) + " got=" + hex(r, 16));
 }
+// A byte-wise AES used ONLY to choose inputs (never as an oracle: every verdict is the Lean model's / Spec.AES's): it lets the generator
+// aim at inputs whose INTERNAL state at a given round has a structure random blocks never produce (zero or constant columns and rows).
+namespace gen_aes {
+  static unsigned char xt(unsigned char a) { return (unsigned char)((a << 1) ^ ((a & 0x80) ? 0x1b : 0)); }
+  static unsigned char mul(unsigned char a, unsigned char b) { unsigned char r = 0; while (b) { if (b & 1) r ^= a; a = xt(a); b >>= 1; } return r; }
+  static unsigned char SB[256], IS[256]; static bool inited = false;
+  static void init() { if (inited) return; inited = true;
+    for (int x = 0; x < 256; x++) { unsigned char inv = 0; if (x) for (int y = 1; y < 256; y++) if (mul((unsigned char)x, (unsigned char)y) == 1) { inv = (unsigned char)y; break; }
+      unsigned char r = inv, t = inv; for (int i = 0; i < 4; i++) { t = (unsigned char)((t << 1) | (t >> 7)); r ^= t; } r ^= 0x63; SB[x] = r; IS[r] = (unsigned char)x; } }
+  // state: byte i of the block is row i%4, column i/4 (FIPS-197)
+  static void expand(const unsigned char *k, unsigned char rk[11][16]) { init(); memcpy(rk[0], k, 16); unsigned char rc = 1;
+    for (int r = 1; r <= 10; r++) { unsigned char t[4] = { SB[rk[r-1][13]], SB[rk[r-1][14]], SB[rk[r-1][15]], SB[rk[r-1][12]] }; t[0] ^= rc; rc = xt(rc);
+      for (int i = 0; i < 4; i++) rk[r][i] = rk[r-1][i] ^ t[i]; for (int i = 4; i < 16; i++) rk[r][i] = rk[r-1][i] ^ rk[r][i-4]; } }
+  static void invShift(unsigned char *s) { unsigned char t[16]; for (int c = 0; c < 4; c++) for (int r = 0; r < 4; r++) t[4 * ((c + r) % 4) + r] = s[4 * c + r]; memcpy(s, t, 16); }
+  static void invMix(unsigned char *s) { for (int c = 0; c < 4; c++) { unsigned char *a = s + 4 * c, b[4];
+      for (int r = 0; r < 4; r++) b[r] = mul(a[r], 14) ^ mul(a[(r + 1) % 4], 11) ^ mul(a[(r + 2) % 4], 13) ^ mul(a[(r + 3) % 4], 9); memcpy(a, b, 4); } }
+  // the plaintext whose state right before MixColumns of round `round` (1..9) under key k is `target`
+  static bytes plaintext_for(const unsigned char *k, int round, const unsigned char *target) { unsigned char rk[11][16]; expand(k, rk); unsigned char s[16]; memcpy(s, target, 16);
+    for (int r = round; r >= 1; r--) { if (r != round) invMix(s); invShift(s); for (int i = 0; i < 16; i++) s[i] = IS[s[i]]; for (int i = 0; i < 16; i++) s[i] ^= rk[r-1][i]; }
+    return bytes(s, s + 16); }
+}
 static void suite_aes(Rng &rng) {
   const char *suite = "aes";
   // FIPS-197 appendix B and C.1
@@ -60,6 +81,19 @@ static void suite_aes(Rng &rng) {
   for (int v = 0; v < 256; v++) { bytes b(16, (unsigned char)v); bytes k(16, (unsigned char)(255 - v)); aes_case(suite, k, b); }
   long n = tier_thorough() ? 100000 : 1500;
   for (long i = 0; i < n; i++) aes_case(suite, rng.buf(16), rng.buf(16));
+  // structured internal states: for every round 1..9 the state entering MixColumns has zero / constant columns or zero rows (all 15 column
+  // patterns, the four rows, constant columns); the block and its ciphertext are both used, so InvMixColumns sees the mirrored states too
+  { std::vector<bytes> keys = { zero, unhex("000102030405060708090a0b0c0d0e0f"), rng.buf(16) }; if (tier_thorough()) for (int i = 0; i < 6; i++) keys.push_back(rng.buf(16));
+    long made = 0;
+    for (auto &k : keys) for (int round = 1; round <= 9; round++) {
+      std::vector<bytes> targets;
+      for (int mask = 1; mask < 16; mask++) { bytes t = rng.buf(16); for (int c = 0; c < 4; c++) if (mask & (1 << c)) memset(&t[4 * c], 0, 4); targets.push_back(t); }
+      for (int row = 0; row < 4; row++) { bytes t = rng.buf(16); for (int c = 0; c < 4; c++) t[4 * c + row] = 0; targets.push_back(t); }
+      for (int c = 0; c < 4; c++) { bytes t = rng.buf(16); memset(&t[4 * c], rng.below(256), 4); targets.push_back(t); }
+      { bytes t(16, 0); t[0] = 0x52; t[5] = 0x52; t[10] = 0x52; t[15] = 0x52; targets.push_back(t); bytes u(16, (unsigned char)rng.below(256)); targets.push_back(u); }
+      for (auto &t : targets) { bytes p = gen_aes::plaintext_for(k.data(), round, t.data()); aes_case(suite, k, p);
+        unsigned char c[16]; memcpy(c, p.data(), 16); real_aes(true, k.data(), c); aes_case(suite, k, bytes(c, c + 16)); made += 2; } }
+    emitI(suite, "structured_state_blocks", S(made)); }
   // cipher objects are values: a copy (copy construction, assignment, container growth) must keep computing AES under ITS key after the
   // original has been destroyed or rebuilt in place with another key, and a fresh object must not depend on objects created before it
   for (int i = 0; i < (tier_thorough() ? 400 : 60); i++) {
@@ -247,6 +281,17 @@ static void suite_hash(Rng &rng) {
     }
     delete h;
   }
+  // the digest written over (part of) its own message -- x = H(x) chains, a digest stored inside the record it covers: the result buffer may
+  // overlap the message at any offset (the code writes the result only after the last message byte has been consumed)
+  for (int alg = 0; alg < 3; alg++) { HashFactory hf; Hashmaster *h = hf.getHasher(hf.getType((u8_t)alg)); size_t hl = h->gethlen();
+    for (size_t n : {hl, hl + 4, (size_t)55, (size_t)56, (size_t)64, (size_t)65, (size_t)100, (size_t)129, (size_t)200}) { if (n < hl) continue;
+      bytes m = rng.buf(n);
+      for (size_t off : {(size_t)0, (size_t)4, (n - hl) / 2, n - hl}) { if (off + hl > n) continue;
+        bytes w = m; trace_case("hash", "digest written into its own message alg=" + S(alg) + " n=" + S((long)n) + " at offset " + S((long)off) + " m=" + hex(m));
+        h->getStringHash(w.data(), (u32_t)n, w.data() + off);
+        std::string r = hex(w.data() + off, hl); emitM("hash", "hash " + S(alg) + " " + hex(m), r); emitO("hash", "shash " + S(alg) + " " + hex(m), r);
+        for (size_t i = 0; i < n; i++) if ((i < off || i >= off + hl) && w[i] != m[i]) { emitA("hash", "C07", "hashing with the result inside the message changed message byte " + S((long)i) + " outside the result area (alg=" + S(alg) + " n=" + S((long)n) + " offset=" + S((long)off) + ")"); break; } } }
+    delete h; }
   // file entry point through the real filebuffer64 with refill size HB units: all lengths around the refill boundaries
   if (HB <= 64) {
     std::vector<long> lens;
